@@ -196,6 +196,11 @@ pub assume_specification<T, P> [std::option::Option::<T>::filter] (o: std::optio
     requires o is Some ==> p.requires((&o->Some_0,)),
     ensures match o { Some(v) => (p.ensures((&v,), true) && out == Some(v)) || (p.ensures((&v,), false) && out is None), None => out is None };
 #[verifier::external_body] pub fn fmt_opaque() -> String { unimplemented!() }
+// do_readdir hands the callback a name produced by CStr::to_bytes(): the NUL that follows it in the getdents64 buffer is what the
+// `unsafe { CStr::from_bytes_with_nul_unchecked(from_raw_parts(&name[0], len + 1)) }` expression relies on (its safety comment); the
+// expression is that name as a &CStr
+#[verifier::external_body] pub fn cstr_of_dirent_name<'a>(name: &'a [u8]) -> (r: &'a CStr) ensures r@ == name@ { unimplemented!() }
+pub uninterp spec fn forget_allowed(g: Lg, inode: Inode, count: u64) -> bool;
 // ---- std::collections::btree_map::Entry on the generator's table `Mutex<BTreeMap<DevMntIDPair, u8>>`; the table's contents are
 //      `lg.devmap` (sequential: the mutex is held for the whole probe-then-insert)
 pub mod btree_map {
@@ -463,6 +468,10 @@ pub open spec fn granted(o: Lg, n: Lg, ino: Inode) -> bool {
 }
 pub open spec fn no_grant(o: Lg, n: Lg) -> bool { n.rc == o.rc && n.ins == o.ins && n.store == n.base }
 
+// a lookup gave one reference to `ino` (state `m`), nothing else was added since, and `forgot` is what has been forgotten since `o`
+pub open spec fn lookup_then(o: Lg, n: Lg, ino: Inode, forgot: Seq<(Inode, u64)>) -> bool {
+    exists|m: Lg| #[trigger] granted(o, m, ino) && n.rc == m.rc && n.ins == m.ins && m.fg == o.fg && n.fg == o.fg + forgot
+}
 // ---- allocation: what UniqueInodeGenerator::get_unique_inode does to the generator state, and the number it returns
 pub open spec fn wrap64(v: u64) -> u64 { if v == u64::MAX { 0u64 } else { (v + 1) as u64 } }
 pub open spec fn devmap_step(o: Lg, n: Lg, p: DevMntIDPair) -> bool {
@@ -578,6 +587,48 @@ def unit(root='/repo'):
         return fn
 
     LOCK_POST = 'final(lg).lock_step(*old(lg))'
+    # ---- the callbacks PassthroughFs::readdir / readdirplus hand to do_readdir (R17 / R17' closure lifting)
+    CB_REQ = [c.replace('(parent', '(inode').replace('name@', 'dir_entry.name@') for c in LOOKUP_REQ]
+    CSTR = (r'unsafe\s*\{\s*CStr::from_bytes_with_nul_unchecked\(\s*std::slice::from_raw_parts\(\s*&dir_entry\.name\[0\],\s*dir_entry\.name\.len\(\) \+ 1,?\s*\)\s*\)\s*\}',
+            'cstr_of_dirent_name(dir_entry.name)', 'the entry name as &CStr: the unsafe expression relies on do_readdir having produced the name with CStr::to_bytes (model cstr_of_dirent_name)')
+    DE = "DirEntry<'b>"
+    readdir_cb = Lifted(PTS, FSIMPL, 'readdir', 0,
+                        "fn readdir_entry<'b>(&self, inode: Inode, mut dir_entry: %s, _dir: RawFd, Tracked(lg): Tracked<&mut Lg>) -> (res: io::Result<%s>)" % (DE, DE), 'add_entry',
+                        props=['C08'], canary=True,
+                        requires=CB_REQ + [
+                            # the one thing this callback may forget: the reference its own lookup has just taken, once
+                            'forall|g: Lg, i: Inode, c: u64| #[trigger] forget_allowed(g, i, c) <==> c == 1 && lookup_then(*old(lg), g, i, Seq::empty()) // [C08.readdir.forget_cap]'],
+                        ensures=['res is Err ==> final(lg).rc == old(lg).rc && final(lg).ins == old(lg).ins && final(lg).fg == old(lg).fg // [C08.readdir.err_no_ref]',
+                                 # "readdir forgets its temporary reference": one reference taken, exactly that one given back, once
+                                 'res is Ok ==> lookup_then(*old(lg), *final(lg), res->Ok_0.ino, seq![(res->Ok_0.ino, 1u64)]) // [C08.readdir.temp_ref]',
+                                 'res is Ok ==> res->Ok_0.name == dir_entry.name && res->Ok_0.offset == dir_entry.offset && res->Ok_0.type_ == dir_entry.type_'])
+    WIT = ('let entry = self.do_lookup(inode, name, Tracked(lg))?;', 'after',
+           'let ghost m = *lg; proof { assert(granted(*old(lg), m, entry.inode)); assert(lg.fg =~= old(lg).fg + Seq::<(Inode, u64)>::empty()); assert(lookup_then(*old(lg), *lg, entry.inode, Seq::empty())); }')
+    readdir_cb.splices = [WIT, ('self.forget_one(&mut inodes, entry.inode, 1, Tracked(lg));', 'after',
+                                'proof { assert(lg.fg =~= old(lg).fg + seq![(entry.inode, 1u64)]); assert(granted(*old(lg), m, entry.inode)); assert(lookup_then(*old(lg), *lg, entry.inode, seq![(entry.inode, 1u64)])); }')]
+    readdir_cb.body_resub = [CSTR]
+    readdir_cb.ghost_token = dict(TOK, callees=['do_lookup', 'get_map_mut', 'forget_one'])
+    readdirplus_cb = Lifted(PTS, FSIMPL, 'readdirplus', 0,
+                            "fn readdirplus_entry<'b>(&self, inode: Inode, mut dir_entry: %s, _dir: RawFd, cont_res: io::Result<usize>, Tracked(lg): Tracked<&mut Lg>) -> (res: io::Result<(Option<(%s, Entry)>, io::Result<usize>)>)" % (DE, DE), 'add_entry',
+                            props=['C08'], canary=True,
+                            requires=CB_REQ + [
+                                # "readdirplus forgets entries that did not fit": the looked-up inode, once, and only when add_entry said 0 (or failed)
+                                'forall|g: Lg, i: Inode, c: u64| #[trigger] forget_allowed(g, i, c) <==> c == 1 && !(cont_res is Ok && cont_res->Ok_0 > 0) && lookup_then(*old(lg), g, i, Seq::empty()) // [C08.readdirplus.forget_cap]'],
+                            ensures=['res is Err ==> final(lg).rc == old(lg).rc && final(lg).ins == old(lg).ins && final(lg).fg == old(lg).fg // [C08.readdirplus.err_no_ref]',
+                                     # the entry handed to add_entry is the one the reference was taken for; the callback's result is add_entry's
+                                     'res is Ok ==> res->Ok_0.0 is Some && res->Ok_0.1 == cont_res && res->Ok_0.0->Some_0.0.ino == res->Ok_0.0->Some_0.1.attr.st_ino // [C08.readdirplus.entry]',
+                                     # delivered (n > 0): the reference stays with the client
+                                     'res is Ok && cont_res is Ok && cont_res->Ok_0 > 0 ==> lookup_then(*old(lg), *final(lg), res->Ok_0.0->Some_0.1.inode, Seq::empty()) // [C08.readdirplus.keep_delivered]',
+                                     # did not fit (0): the reference is given back, entry.inode (not attr.st_ino), count 1
+                                     'res is Ok && cont_res is Ok && cont_res->Ok_0 == 0 ==> lookup_then(*old(lg), *final(lg), res->Ok_0.0->Some_0.1.inode, seq![(res->Ok_0.0->Some_0.1.inode, 1u64)]) // [C08.readdirplus.forget_undelivered]',
+                                     # add_entry failed: nothing was delivered either ("entries actually delivered")
+                                     'res is Ok && cont_res is Err ==> lookup_then(*old(lg), *final(lg), res->Ok_0.0->Some_0.1.inode, seq![(res->Ok_0.0->Some_0.1.inode, 1u64)]) // [C08.readdirplus.err_undelivered]'])
+    readdirplus_cb.splices = [WIT, ('self.forget_one(&mut inodes, ino, 1, Tracked(lg));', 'after',
+                                    'proof { assert(lg.fg =~= old(lg).fg + seq![(ino, 1u64)]); assert(granted(*old(lg), m, ino)); assert(lookup_then(*old(lg), *lg, ino, seq![(ino, 1u64)])); }')]
+    readdirplus_cb.rules = ('R31',)
+    readdirplus_cb.body_resub = [CSTR]
+    readdirplus_cb.ghost_token = dict(TOK, callees=['do_lookup', 'get_map_mut', 'forget_one'])
+    readdirplus_cb.cont_param = 'cont_res'
     REM = 'inodes.remembered(*id, opt_h(handle_opt))'
     ALLOC_ENS = [
         'final(lg).store == old(lg).store && final(lg).base == old(lg).base && final(lg).same_logs(*old(lg))',
@@ -686,6 +737,13 @@ def unit(root='/repo'):
                    attrs=['#[verifier::exec_allows_no_decreases_clause]'],
                    requires=LOOKUP_REQ, ensures=LOOKUP_ENS, splices=LOOKUP_SPLICES),
                 callees=['get', 'get_alt', 'compare_exchange', 'fetch_add', 'get_map_mut', 'allocate_inode'], path_callees=['insert_locked']),
+            # forget_one: its own contract ([C08.forget.*]) is proved on the real text in unit `inodes`; here capability-guarded + logged
+            tok(Fn(PT, IMPL, 'forget_one', external_body=True, props=['C08'],
+                   requires=['*old(inodes) == old(lg).store // [seq]', 'forget_allowed(*old(lg), inode, count) // [forget]'],
+                   ensures=['final(lg).fg == old(lg).fg.push((inode, count)) && final(lg).rc == old(lg).rc && final(lg).ins == old(lg).ins && final(lg).same_alloc(*old(lg))',
+                            'final(lg).store == *final(inodes) && final(lg).base == old(lg).base',
+                            _fn_of(inu, 'forget_one').ensures[1].split('//')[0]])),
+            readdir_cb, readdirplus_cb,
         ]),
     ]
     return Unit('ptlookup', items, preludes=['base.rs', 'stdmodel.rs'],
